@@ -55,6 +55,13 @@ func (x *VerifC14Seg[T, O]) State() (rc int32, open bool, mbd bool, dir bool) {
 	return
 }
 
+// StateNoLock reads the atomics only (usable while another goroutine holds s.mu).
+func (x *VerifC14Seg[T, O]) StateNoLock() (rc int32, open bool, mbd bool, dir bool) {
+	rc = atomic.LoadInt32(&x.s.refCount)
+	mbd = atomic.LoadUint32(&x.s.mustBeDeleted) != 0
+	return rc, false, mbd, false
+}
+
 // Suffix is the directory suffix of the segment.
 func (x *VerifC14Seg[T, O]) Suffix() string { return x.s.suffix }
 
